@@ -14,6 +14,8 @@ LEVEL = 'exploration'
 EXHAUSTIVE_MEANS_ALL = False      # the stated space (~1e10 cells) is sliced
 MIN_NONTRIVIAL = 5000
 REQUIRED_COUNTERS = {
+    'c05w_queue_evaluations': 20,
+    'c05w_nonempty_selection_agrees': 5,
     'compared_selection': 5000,
     'compared_destinations': 5000,
     'expected_nothing': 100,
@@ -574,6 +576,9 @@ def run_graph(g, mode, start, stop, rot, acc, label):
 def run_shard(spec, acc):
     tier, shard, n, seed = (spec['tier'], spec['shard'], spec['nshards'],
                             spec['seed'])
+    # system-level companion: queue evaluations on real repositories
+    from vf.world import c05_world
+    c05_world.run(spec, acc, 2 if tier == 'quick' else 20)
     sl = SLICES[tier]
     last = (None, None)
     for j, (gi, gr, mode, start, stop) in enumerate(units(tier)):
@@ -643,6 +648,9 @@ def finalize(acc, tier, seed):
 
 
 def replay(w, acc):
+    if w.get('world'):
+        from vf.world import c05_world
+        return c05_world.replay(w, acc)
     g = Graph(tuple(w['layout']), tuple(w['dests']), list(w['pr_ids']),
               w.get('stale', False), acc)
     tab = list(w['statuses'])
